@@ -411,6 +411,16 @@ Definition judge_for (which : N) (c : case) : verdict :=
   let k := monitor_at which c in
   first_fail [ (k =? 0, v_violation (which + 100 * k)); corr c ].
 
+(** Stalled-terminal cases for C01: once the terminal has been drained, every attempt that was not
+    attached has been announced to the operator - a refusal notice waits for room, it is never dropped. *)
+Definition attempts (os : list op) : list N :=
+  flat_map (fun o => match admitted_id o with Some id => [id] | None => [] end) os.
+Definition refusals_told (c : case) : bool :=
+  let att := flat_map o_att (impl c) in
+  let refused := filter (fun id => negb (memb id att)) (attempts (ops c)) in
+  (total_notes NRefused (impl c) =? length refused)%nat.
+Definition judge_c01s (cs : list case) := judge_list (fun c => first_fail [ (refusals_told c, v_violation 1) ]) cs.
+
 Definition judge_c01 (cs : list case) := judge_list (judge_for 1) cs.
 Definition judge_c02 (cs : list case) := judge_list (judge_for 2) cs.
 Definition judge_c03 (cs : list case) := judge_list (judge_for 3) cs.
@@ -428,5 +438,5 @@ Definition tag (c : case) : N :=
   (if existsb (fun o => existsb (fun w => match w with WWriteFail _ _ | WFlushFail _ _ => true | _ => false end) (o_w o)) obs then 8 else 0) +
   (if existsb (fun o => match o with OIoReq _ _ _ _ => true | _ => false end) (ops c) then 16 else 0).
 Definition tags (cs : list case) : list N := map tag cs.
-Definition judge_c01_tags := tags.  Definition judge_c02_tags := tags.  Definition judge_c03_tags := tags.
+Definition judge_c01_tags := tags.  Definition judge_c01s_tags := tags.  Definition judge_c02_tags := tags.  Definition judge_c03_tags := tags.
 Definition judge_c04_tags := tags.  Definition judge_c06_tags := tags.  Definition judge_c11_tags := tags.
